@@ -14,9 +14,25 @@ TABLE_XMIN, TABLE_XMAX = -8.2, 8.2          # documented table range of every ta
 XMAX = 7.05                                 # |norm.ppf(1e-12)| = 7.034...: probabilities in [1e-12, 1-1e-12]
 
 
+_JAX_READY = False
+
+
 def _jax():
+    global _JAX_READY
     import jax
-    jax.config.update("jax_enable_x64", True)
+    if not _JAX_READY:
+        jax.config.update("jax_enable_x64", True)
+        try:    # persistent XLA compilation cache: purely an accelerator for repeated runs (keyed by the HLO), optional
+            import os
+            import tempfile
+            d = os.path.join(tempfile.gettempdir(), "c30_jax_cache")
+            os.makedirs(d, exist_ok=True)
+            jax.config.update("jax_compilation_cache_dir", d)
+            jax.config.update("jax_persistent_cache_min_compile_time_secs", 0.0)
+            jax.config.update("jax_persistent_cache_min_entry_size_bytes", 0)
+        except Exception:  # noqa: BLE001
+            pass
+        _JAX_READY = True
     import jax.numpy as jnp
     return jax, jnp
 
